@@ -49,7 +49,7 @@ type vSched struct {
 }
 
 func newVSched() *vSched {
-	return &vSched{byGoid: map[int64]*vActor{}, newActor: make(chan *vActor, 64), timeout: 10 * time.Second}
+	return &vSched{byGoid: map[int64]*vActor{}, newActor: make(chan *vActor, 64), timeout: 60 * time.Second}
 }
 
 func (s *vSched) register(name string) *vActor {
@@ -272,7 +272,7 @@ func (w *tpWorld) checkProperties(res *verifutil.Result, keyBase string, repl an
 
 func (w *tpWorld) quiesce(total int) {
 	w.s.setFree()
-	deadline := time.Now().Add(5 * time.Second)
+	deadline := time.Now().Add(60 * time.Second)
 	for time.Now().Before(deadline) {
 		w.mu.Lock()
 		n := len(w.execs)
@@ -490,7 +490,7 @@ func TestVerifTaskPoolRandomWalk(t *testing.T) {
 	var traces [][]map[string]any
 	for wi := 0; wi < walks; wi++ {
 		s := newVSched()
-		s.timeout = 5 * time.Second
+		s.timeout = 60 * time.Second
 		w := &tpWorld{s: s, pool: NewUdpTaskPool(), accepted: map[string][]tpTask{}}
 		verifYieldHook = s.hook
 		keys := map[string]string{"p1": "A", "p2": "A", "p3": "B"}
@@ -662,7 +662,7 @@ func TestVerifTaskPoolRandomWalk(t *testing.T) {
 							s.await(c)
 							actors = append(actors, c)
 							known = c.q == createdQ
-						case <-time.After(5 * time.Second):
+						case <-time.After(60 * time.Second):
 							res.Note(fmt.Sprintf("walk %d: the worker of a newly stored queue did not show up", wi))
 							dead = true
 							known = true
